@@ -666,17 +666,45 @@ func (t *tr2) call(x *ast.CallExpr, bs *[]bind) string {
 		t.fail(x, "method %s of an abstract-bytes interface is not modelled", callee.Name())
 		return "0"
 	}
+	if callee.Pkg() != nil && freshAlloc2[callee.Pkg().Path()+"."+recvName(callee)+callee.Name()] {
+		rt := t.info.TypeOf(x)
+		if pn, isP := ptrStruct(rt); isP && t.typeOK(rt) {
+			return "(Some " + t.zero(x, pn) + ")"
+		}
+		t.fail(x, "fresh allocator %s does not return a pointer to a translated struct", callee.Name())
+		return "None"
+	}
 	fi, ok := t.g.fns[callee]
 	if !ok {
 		t.fail(x, "call to untranslated function %s", callee.FullName())
 		return "0"
 	}
-	if fi.mut {
-		t.fail(x, "call of the receiver-mutating method %s from translated code unsupported", fi.name)
-		return "0"
-	}
 	sig := callee.Type().(*types.Signature)
 	parts := []string{t.q(fi.mod, fi.name)}
+	type step struct {
+		setter, base string
+	}
+	var steps []step // for the write-back of a receiver-mutating call
+	rootPtr := false
+	if fi.mut {
+		// state-passing callee: the updated receiver is written back into the receiver operand,
+		// which must be a local this function owns (a fresh pointer, its own mutable receiver, or
+		// a struct-valued local), possibly through embedded fields
+		id, isId := recv.(*ast.Ident)
+		ok := false
+		if isId {
+			o := t.info.Uses[id]
+			_, isP := t.info.TypeOf(id).Underlying().(*types.Pointer)
+			rootPtr = isP
+			if v, isV := o.(*types.Var); isV && !(v.Pkg() != nil && v.Parent() == v.Pkg().Scope()) {
+				ok = !isP || t.fresh[o] || (t.mutRecv != nil && o == t.mutRecv)
+			}
+		}
+		if !ok {
+			t.fail(x, "call of the receiver-mutating method %s: the receiver must be a local owned by this function (fresh pointer, own receiver, or struct value)", fi.name)
+			return "0"
+		}
+	}
 	if recv != nil {
 		rv := t.expr(recv, bs)
 		rt := t.info.TypeOf(recv)
@@ -700,11 +728,15 @@ func (t *tr2) call(x *ast.CallExpr, bs *[]bind) string {
 				t.fail(x, "embedded field %s.%s has a type outside the subset", r.name, f.goName)
 				return "0"
 			}
+			steps = append(steps, step{setter: t.q(r.mod, "set_"+f.coq), base: rv})
 			rv = "(" + t.q(r.mod, f.coq) + " " + rv + ")"
 			rt = f.ty
 		}
 		_, wantPtr := sig.Recv().Type().Underlying().(*types.Pointer)
 		_, havePtr := rt.Underlying().(*types.Pointer)
+		if fi.mut && len(steps) == 0 && !havePtr {
+			steps = nil
+		}
 		switch {
 		case wantPtr && !havePtr:
 			rv = "(Some " + rv + ")" // method value on an addressable operand; the callee may not write through it
@@ -718,6 +750,21 @@ func (t *tr2) call(x *ast.CallExpr, bs *[]bind) string {
 	parts = append(parts, t.args(x, sig, bs)...)
 	tmp := t.freshTmp()
 	*bs = append(*bs, bind{pat: tmp, rhs: "(" + strings.Join(parts, " ") + ")"})
+	if fi.mut {
+		rnew, res := t.freshTmp(), t.freshTmp()
+		*bs = append(*bs, bind{let: true, pat: "'(" + rnew + ", " + res + ")", rhs: tmp})
+		inner := t.freshTmp()
+		*bs = append(*bs, bind{pat: inner, rhs: "(go_deref " + rnew + ")"}) // the callee returns a non-nil receiver
+		val := inner
+		for i := len(steps) - 1; i >= 0; i-- {
+			val = "(" + steps[i].setter + " " + steps[i].base + " " + val + ")"
+		}
+		if rootPtr {
+			val = "(Some " + val + ")"
+		}
+		t.assign(recv, val, bs)
+		return res
+	}
 	return tmp
 }
 
@@ -893,4 +940,19 @@ func (t *tr2) sumDispatch(x *ast.CallExpr, si *sumInfo, recv ast.Expr, method st
 	tmp := t.freshTmp()
 	*bs = append(*bs, bind{pat: tmp, rhs: "(match " + rv + " with " + strings.Join(arms, " ") + " end)"})
 	return tmp
+}
+
+func recvName(f *types.Func) string {
+	sig, _ := f.Type().(*types.Signature)
+	if sig == nil || sig.Recv() == nil {
+		return ""
+	}
+	ty := sig.Recv().Type()
+	if p, ok := ty.(*types.Pointer); ok {
+		ty = p.Elem()
+	}
+	if n, ok := ty.(*types.Named); ok {
+		return n.Obj().Name() + "."
+	}
+	return "?."
 }
